@@ -20,6 +20,7 @@ def setup():
         sys.path.insert(0, repo)
     import logging
     logging.getLogger("nifty.re").setLevel(logging.ERROR)
+    logging.getLogger("nifty.re.logger").setLevel(logging.ERROR)
     logging.getLogger("jax").setLevel(logging.ERROR)
 
 
